@@ -233,6 +233,26 @@ ProcHeader(nd, b) ==
                           !.hhead = IF Work(b) > Work(nd.hhead) THEN b ELSE @],
         ok |-> TRUE]
 
+(* sync_block_headers (pipe::process_block_headers): a batch of consecutive headers, all or nothing.
+   Every header is validated against its predecessor (which may be earlier in the same batch) and
+   saved; then the header MMR is rewound to the fork point and the fork headers are re-applied with
+   their prev_root checked; the header head moves only if the last header has more work.          *)
+RECURSIVE BatchOK(_, _, _)
+BatchOK(nd, seq, i) ==
+  IF i > Len(seq) THEN TRUE
+  ELSE /\ (Parent(seq[i]) \in nd.hdrs \/ (i > 1 /\ Parent(seq[i]) = seq[i-1]))
+       /\ HeaderOK(seq[i])
+       /\ BatchOK(nd, seq, i + 1)
+ProcHeaders(nd, seq) ==
+  IF seq = <<>> THEN [nd |-> nd, ok |-> TRUE]
+  ELSE IF ~BatchOK(nd, seq, 1) THEN [nd |-> nd, ok |-> FALSE]
+  ELSE LET lastb == seq[Len(seq)] IN
+       [nd |-> [nd EXCEPT !.hdrs = @ \cup {seq[i] : i \in 1..Len(seq)},
+                          !.hhead = IF Work(lastb) > Work(nd.hhead) THEN lastb ELSE @],
+        ok |-> TRUE]
+\* the last k blocks of the path to b, in chain order
+LastK(b, k) == LET p == Path(b) IN SubSeq(p, Len(p) - k + 1, Len(p))
+
 (* process_block_single (chain.rs) + pipe::process_block as three stages, each one critical
    section (or one unlocked read) of the code, so that ChainConc.tla can interleave them:
      ProcHeader   the header section (own batch, committed on success)
@@ -350,6 +370,15 @@ DeliverBlock(b) ==
   /\ ndel' = ndel + 1
   /\ UNCHANGED tree
 
+DeliverHeaders(b, k) ==
+  /\ AllMinted /\ ndel < MaxDeliveries /\ ~HeadersFirst
+  /\ k \in 1..Height(b) /\ k <= 3
+  /\ LET r == ProcHeaders(n, LastK(b, k)) IN
+       /\ n' = r.nd
+       /\ last' = [k |-> "SyncHeaders", b |-> b, res |-> IF r.ok THEN "ok" ELSE "reject", cnt |-> k]
+  /\ ndel' = ndel + 1
+  /\ UNCHANGED tree
+
 Reopen ==
   /\ AllMinted /\ ndel < MaxDeliveries /\ ndel > 0 /\ last.k # "Reopen"
   /\ n' = [n EXCEPT !.orph = <<>>]
@@ -367,7 +396,7 @@ Init == /\ tree = TrunkTree
         /\ last = [k |-> "Init", b |-> 0, res |-> "-"]
 
 Next == \/ MintAny
-        \/ \E b \in Ids \ {0} : DeliverHeader(b) \/ DeliverBlock(b)
+        \/ \E b \in Ids \ {0} : DeliverHeader(b) \/ DeliverBlock(b) \/ (\E k \in 2..3 : DeliverHeaders(b, k))
         \/ Reopen
 
 Spec == Init /\ [][Next]_vars
